@@ -264,4 +264,4 @@ def main(ctx):
                      'correspondence inputs are restricted to ASCII',
                      'fixedName / anchor marks of commands and netip parsing are outside the model (no index expressions)',
                      'encoding/json, encoding/xml, regexp, netip: Go standard library, trusted',
-                     'hang = no exit within 30 s (60 s for do-approve)'])
+                     'hang = no exit within 60 s while 16 runs are in parallel and again none within 600 s when run alone (60 s for do-approve)'])
